@@ -827,6 +827,8 @@ class Interp:
                 return Enum('Result', last, vals)
             if head == 'std::cmp::Ordering':
                 return Enum('Ordering', last, vals)
+            if head == 'std::ops::ControlFlow':
+                return Enum('ControlFlow', last, vals)
             return TAgg(path, vals)
         if k == 'closure':
             return Closure(rv[1], [self.operand(fr, o, f) for o in rv[2]])
@@ -839,6 +841,8 @@ class Interp:
                     return {'Ok': 0, 'Err': 1}[v.variant]
                 if v.ty == 'Ordering':
                     return {'Less': -1, 'Equal': 0, 'Greater': 1}[v.variant]
+                if v.ty == 'ControlFlow':
+                    return {'Continue': 0, 'Break': 1}[v.variant]
                 return self.enums[v.ty].index(v.variant)
             raise Unsupported('discriminant of ' + type(v).__name__)
         if k == 'binop':
